@@ -20,6 +20,13 @@ def _dim_along(S, x, index, shapes, r):
             S.and_(S.not_(S.is_none(x_.axes[q])), lambda: S.eq(S.some(x_.axes[q]), ix_)), lambda: sh_[x_.name][q] == r_)))
 
 
+def _at_most_once(S, x, index):
+    return S.opaque("spec:at_most_once", [x, index], lambda x_, ix_: S.forall(0, S.len(x_.axes), lambda q1: S.forall(
+        0, S.len(x_.axes), lambda q2: S.implies(S.and_(
+            q1 != q2, S.not_(S.is_none(x_.axes[q1])), S.not_(S.is_none(x_.axes[q2])),
+            lambda: S.eq(S.some(x_.axes[q1]), ix_)), lambda: S.not_(S.eq(S.some(x_.axes[q2]), ix_))))))
+
+
 def _all_dims(S, arrays, index, shapes, r):
     return S.opaque("spec:all_dims", [arrays, index, shapes, r], lambda ar_, ix_, sh_, r_: S.forall(
         0, S.len(ar_), lambda i: _dim_along(S, ar_[i], ix_, sh_, r_)))
@@ -44,6 +51,7 @@ get_common_dim = Contract(
         "every array carries the index and has a shape of its rank": S.forall(0, S.len(a.arrays), lambda i: S.and_(
             _has_axis(S, a.arrays[i], a.index), S.has(a.input_shapes, a.arrays[i].name),
             lambda: S.len(a.input_shapes[a.arrays[i].name]) == S.len(a.arrays[i].axes))),
+        "an array names the index at most once": S.forall(0, S.len(a.arrays), lambda i: _at_most_once(S, a.arrays[i], a.index)),
     },
     raises=[("ValueError", lambda S, a: _mismatch(S, a.arrays, a.index, a.input_shapes))],
     ensures=lambda S, a, r, post: {"the common size along the index": _all_dims(S, a.arrays, a.index, a.input_shapes, r)},
@@ -87,8 +95,12 @@ def _int_dim(S, a, j):
 
 def _shape_wf(S, a):
     outs = a.self.outputs
+    ins = a.self.inputs
     return {"has an output whose axes are all named": S.and_(S.len(outs) >= 1, lambda: S.forall(
-        0, S.len(outs[0].axes), lambda p: S.not_(S.is_none(outs[0].axes[p]))))}
+        0, S.len(outs[0].axes), lambda p: S.not_(S.is_none(outs[0].axes[p])))),
+        "an input names an index at most once": S.forall(0, S.len(ins), lambda i: S.forall_key(
+            TStr, lambda nm: _at_most_once(S, ins[i], nm),
+            domain=() if S.symbolic else [x for x in ins[i].axes if x is not None]))}
 
 
 def _bad_axis(S, a, M, p):
